@@ -247,3 +247,51 @@ def primitive_return(c):
     c.check('callable_returns', out.returned, detail=repr(out))
     c.check('status_200', bool(seen) and seen[0][0].startswith('200'), detail=seen)
     c.check('exact_text_or_bytes', body == want, detail=(body, want))
+
+
+@obligation('C03.out_headers', targets=['spyne.protocol.http:HttpRpc.serialize', 'spyne.protocol.http:_header_to_bytes'],
+            bounded="14 header triples: integers, text, and date-times that are naive, UTC, or in a fixed / named zone whose "
+                    "conversion to UTC stays on the day or crosses a day, month or year boundary (incl. 29 February)",
+            desc="the declared HTTP response headers carry the values the function set: text and numbers as their text, a "
+                 "date-time as the HTTP-date (IMF-fixdate, GMT) of that very instant whatever zone the value carries; the "
+                 "body is the primitive result")
+def out_headers(c):
+    import datetime as dt
+    from email.utils import format_datetime
+    import pytz
+    from spyne.model.complex import ComplexModel
+    from spyne.model.primitive import DateTime
+    F = pytz.FixedOffset
+    WHEN = [dt.datetime(2013, 1, 1, 0, 0, 0), dt.datetime(2020, 2, 29, 23, 59, 59), dt.datetime(2013, 1, 1, 12, 0, 0, 0, pytz.utc),
+            dt.datetime(2019, 6, 12, 15, 30, 0, 0, F(120)), dt.datetime(2019, 6, 12, 9, 30, 0, 0, F(-300)),
+            dt.datetime(2019, 6, 12, 1, 30, 0, 0, F(120)), dt.datetime(2019, 6, 12, 22, 30, 0, 0, F(-300)),
+            dt.datetime(2019, 7, 1, 0, 15, 0, 0, F(60)), dt.datetime(2019, 12, 31, 20, 0, 0, 0, F(-480)),
+            dt.datetime(2020, 3, 1, 0, 30, 0, 0, F(60)), dt.datetime(2021, 1, 1, 0, 0, 0, 0, F(14 * 60)),
+            dt.datetime(2020, 2, 28, 23, 0, 0, 0, F(-120)), pytz.timezone('Asia/Tokyo').localize(dt.datetime(2021, 3, 1, 8, 59, 59)),
+            dt.datetime(2024, 12, 31, 23, 59, 59, 999999, F(-1))]
+    n = c.choose(list(range(len(WHEN))), 'expires')
+
+    class RespHeader(ComplexModel):
+        _type_info = [('Expires', DateTime), ('X-Count', Integer), ('X-Name', Unicode)]
+
+    class HSvc(ServiceBase):
+        __out_header__ = RespHeader
+
+        @rpc(Integer, _returns=Unicode)
+        def f(ctx, i):
+            ctx.out_header = RespHeader(**{'Expires': WHEN[i], 'X-Count': 2 ** 40 + i, 'X-Name': 'name-%d' % i})
+            return u'case %d' % i
+    app = Application([HSvc], TNS, in_protocol=HttpRpc(), out_protocol=HttpRpc())
+    out, seen, body = _get(c, WsgiApplication(app), '/f', 'i=%d' % n)
+    c.check('callable_returns', out.returned, detail=repr(out))
+    c.check('status_200', bool(seen) and seen[0][0].startswith('200'), detail=seen)
+    if not seen:
+        return
+    headers = dict(seen[0][1])
+    w = WHEN[n]
+    instant = (w if w.tzinfo is not None else w.replace(tzinfo=dt.timezone.utc)).astimezone(dt.timezone.utc)
+    c.check('date_header_is_the_http_date_of_the_instant', headers.get('Expires') == format_datetime(instant, usegmt=True),
+            detail=(headers.get('Expires'), format_datetime(instant, usegmt=True)))
+    c.check('number_and_text_headers_verbatim', headers.get('X-Count') == str(2 ** 40 + n) and headers.get('X-Name') == 'name-%d' % n,
+            detail=headers)
+    c.check('body_is_the_result', body == b'case %d' % n, detail=body)
